@@ -22,6 +22,9 @@ classes are:
   multi_autoescape     more than one {% autoescape %} directive in a file
   multi_extends / nested_extends / include_extends   extends anywhere but once at the top level of a file
   module               {% module %} (needs a RequestHandler)
+  jump_in_loop_else / jump_lands_outside_loop   break/continue that Python attaches to another loop than the
+                       template's own file suggests (loop else clause; block body moved out of its loop)
+  apply_eval_order     the apply function expression raises and the body raises something else
 
 Name resolution follows "the template is one Python function": a name assigned anywhere in the
 function (set / for target / import / except-as) is local to it, an {% apply %} body is a nested
@@ -775,7 +778,40 @@ class RefLoader:
                 raise RefEither("nested_extends")
             if g.n_autoescape > 1:
                 raise RefEither("multi_autoescape")
+        self._check_jumps(chain[-1].body, False, table, ())
         return chain[-1], table
+
+    def _check_jumps(self, items, in_loop, table, stack):
+        """A break/continue is checked against the loops of its own file; through block replacement it
+        can land outside any loop of the function actually built (Python: 'break outside loop')."""
+        for it in items:
+            if isinstance(it, Jump):
+                if not in_loop:
+                    raise RefEither("jump_lands_outside_loop", "%s:%d" % (it.file.name, it.line))
+            elif isinstance(it, If):
+                for _, b in it.branches:
+                    self._check_jumps(b, in_loop, table, stack)
+                if it.orelse:
+                    self._check_jumps(it.orelse, in_loop, table, stack)
+            elif isinstance(it, Loop):
+                self._check_jumps(it.body, True, table, stack)
+                if it.orelse:
+                    self._check_jumps(it.orelse, False, table, stack)
+            elif isinstance(it, Try):
+                for part in [it.body] + [b for _, _, b in it.handlers] + [it.orelse or [], it.final or []]:
+                    self._check_jumps(part, in_loop, table, stack)
+            elif isinstance(it, Apply):
+                self._check_jumps(it.body, False, table, stack)
+            elif isinstance(it, Block):
+                blk = table[it.name]
+                key = ("b", blk.file.name, blk.tok_index)
+                if key not in stack:
+                    self._check_jumps(blk.body, in_loop, table, stack + (key,))
+            elif isinstance(it, Include):
+                inc = self.load(it.name, it.file.name)
+                key = ("i", inc.name)
+                if key not in stack:
+                    self._check_jumps(inc.body, in_loop, table, stack + (key,))
 
     # -- rendering
     def render_slices(self, name, **kwargs):
@@ -987,6 +1023,14 @@ class _Interp:
                 self.exec_items(it.final)
 
     def exec_apply(self, it):
+        # "Applies a function to the output of all template code between apply and end": f(body()).
+        # The function expression is evaluated first, as in a Python call; when it raises *and* the body
+        # would raise something else, which of the two surfaces is not documented.
+        try:
+            fn = self.ev(it.fn)
+            fn_exc = None
+        except Exception as e:
+            fn_exc = e
         outer_out = self.out
         self.out = []
         key = id(it)
@@ -998,11 +1042,18 @@ class _Interp:
         try:
             self.exec_items(it.body)
             inner = self.out
+        except (_Break, _Continue, RefEither):
+            raise
+        except Exception as e:
+            if fn_exc is not None and type(e) is not type(fn_exc):
+                raise RefEither("apply_eval_order")
+            raise
         finally:
             self.out = outer_out
             self.via = saved_via
             self.scope.layers.pop()
+        if fn_exc is not None:
+            raise fn_exc
         joined = b"".join(s.data for s in inner)
-        fn = self.ev(it.fn)
         data = utf8(fn(joined))
         self.emit(Slice("apply", it, data, plain=joined, children=inner, via=self.via, src=it.fn))
